@@ -48,6 +48,74 @@ fn all<S: Dump>(r: Result<Vec<S>, Error>) -> J {
     }
 }
 
+/// C14 on a .shp of almost 4 GiB (a sparse source: zeros except for the header and a few
+/// records): index entries whose byte offset is at or beyond 2^31 — a valid i32 word offset —
+/// in permuted order. Iteration, random access and count must follow the index.
+fn beyond_2gib(ctx: &Ctx, rep: &mut Report) {
+    use crate::gen::{self, Cfg};
+    use crate::iomon::SparseSrc;
+    use crate::rng::{tag, Rng};
+    for (li, t) in [1i32, 3, 15, 28].iter().enumerate() {
+        let case = format!("beyond2gib:t{}", t);
+        if !ctx.want(&case) {
+            continue;
+        }
+        let mut r = Rng::derive(ctx.seed, &[tag("c14-sparse"), *t as u64]);
+        let shapes: Vec<Shape> = (0..5).map(|_| gen::shape(*t, &mut r, &Cfg::plain(2, 3))).collect();
+        let (plain, _) = crate::shapes::write_all_mem(&shapes, true).expect("harness: write");
+        let recs = crate::rawshp::walk(&plain);
+        // byte offsets (even) around and beyond 2^31, visited by the index in this order
+        let base: u64 = 1 << 31;
+        let places: [u64; 5] = [base + 4096, 3 * (1u64 << 30) + 2, 1000, base, base - 2 - 2 * (li as u64)];
+        let total_len: u64 = 4_294_967_294; // i32::MAX words
+        let mut header = plain[..100].to_vec();
+        header[24..28].copy_from_slice(&i32::MAX.to_be_bytes());
+        let mut segments = vec![(0u64, header.clone())];
+        let mut shx = header.clone();
+        shx[24..28].copy_from_slice(&(50 + 4 * 5i32).to_be_bytes());
+        for (k, rec) in recs.iter().enumerate() {
+            // keep records from overlapping: the one placed just below 2^31 is short enough only
+            // for points; for the others move it well below
+            let at = if k == 4 && rec.end() - rec.off > 2 + 2 * li { base - 100_000 } else { places[k] };
+            segments.push((at, plain[rec.off..rec.end()].to_vec()));
+            shx.extend_from_slice(&((at / 2) as u32 as i32).to_be_bytes());
+            shx.extend_from_slice(&rec.content_words.to_be_bytes());
+        }
+        rep.eval();
+        rep.count("layouts_beyond_2_GiB(sparse source)", 1);
+        let want: Vec<crate::dump::D> = shapes.iter().map(|s| s.d().expected_after_roundtrip()).collect();
+        let res = panicmon::catch(|| -> Result<Option<String>, Error> {
+            let mut rd = ShapeReader::with_shx(SparseSrc::new(total_len, segments.clone()), std::io::Cursor::new(shx.clone()))?;
+            if rd.shape_count()? != 5 {
+                return Ok(Some("count".into()));
+            }
+            let it: Vec<crate::dump::D> = rd.iter_shapes().collect::<Result<Vec<_>, _>>()?.iter().map(|s| s.d()).collect();
+            if it.len() != 5 || it.iter().zip(&want).any(|(g, w)| crate::dump::first_diff(g, w).is_some()) {
+                return Ok(Some("iter".into()));
+            }
+            for i in (0..5).rev() {
+                match rd.read_nth_shape(i) {
+                    Some(Ok(s)) if crate::dump::first_diff(&s.d(), &want[i]).is_none() => {}
+                    _ => return Ok(Some(format!("nth({})", i))),
+                }
+            }
+            rd.seek(1)?;
+            let rest: Vec<crate::dump::D> = rd.iter_shapes().collect::<Result<Vec<_>, _>>()?.iter().map(|s| s.d()).collect();
+            if rest.len() != 4 || rest.iter().zip(&want[1..]).any(|(g, w)| crate::dump::first_diff(g, w).is_some()) {
+                return Ok(Some("iter-after-seek(1)".into()));
+            }
+            Ok(None)
+        });
+        let detail = |what: String| J::obj(vec![("type", J::s(gen::type_name(*t))), ("record_byte_offsets_in_index_order", J::s(format!("{:?}", places))), ("what", J::s(what))]);
+        match res {
+            Ok(Ok(None)) => {}
+            Ok(Ok(Some(route))) => rep.violation(&format!("beyond-2GiB/{}", route), &case, detail(format!("{} does not follow the index", route))),
+            Ok(Err(e)) => rep.violation("beyond-2GiB/error", &case, detail(err_class(&e))),
+            Err(p) => rep.violation("beyond-2GiB/panic", &case, detail(p.class())),
+        }
+    }
+}
+
 pub fn run(ctx: &Ctx) -> Report {
     let dir = ctx.opt("dir").expect("harness: decode needs --opt dir=").to_string();
     let manifest = std::fs::read_to_string(format!("{}/files.jsonl", dir)).expect("harness: files.jsonl");
@@ -135,6 +203,11 @@ pub fn run(ctx: &Ctx) -> Report {
                     v.reverse();
                     o.push(("nth", J::Arr(v)));
                 }
+                // the .shp behind a source that hands out 1..7 bytes per read call, index intact
+                let chunk = 1 + idx % 7;
+                if let Ok(mut rd) = ShapeReader::with_shx(Src::chunked(shp.clone(), crate::iomon::Chunking::Fixed(chunk)), Src::new(x.clone())) {
+                    o.push(("iter_idx_chunked", items(rd.iter_shapes(), cap)));
+                }
                 // random access and iteration interleaved on ONE reader: the index alone must
                 // still decide where every record is read from
                 if let Ok(mut rd) = ShapeReader::with_shx(Src::new(shp.clone()), Src::new(x.clone())) {
@@ -175,5 +248,8 @@ pub fn run(ctx: &Ctx) -> Report {
     }
     std::fs::write(format!("{}/decoded.jsonl", ctx.out), s).expect("harness: write decoded");
     rep.guard("files decoded", m.len() as u64, if ctx.only.is_some() { 1 } else { entries.len() as u64 });
+    if ctx.opt("routes") == Some("idx") && !cfg!(miri) {
+        beyond_2gib(ctx, &mut rep);
+    }
     rep
 }
